@@ -9,6 +9,8 @@ try:
 except ImportError:
     NOT_APPLICABLE = {}
 ALL = ["C%02d" % i for i in range(1, 21)]
+GENERIC = (" Generic obligation of every check (RANGE-0): no loop or comprehension of a function the rules analyse iterates a bounded slice of a "
+           "collection, so what the rules state for every item is done for all of them.")
 checks = []
 for p in ALL:
     if p not in CLAIMS:
@@ -21,7 +23,7 @@ for p in ALL:
         "evidence_file": "/verif/evidence/%s.json" % p,
         "replay_cmd_template": "/venv/bin/python sa/run.py %s --replay {path}" % p,
         "engine": "sa",
-        "level_claimed": {"category": "other", "text": c["text"], "design_ref": "DESIGN.md section " + c["ref"]},
+        "level_claimed": {"category": "other", "text": c["text"] + GENERIC, "design_ref": "DESIGN.md section " + c["ref"]},
         "level_note": c.get("note", NOTE),
         "technique": "static analysis: " + c["technique"],
     })
